@@ -594,7 +594,7 @@ def run(ctx):
     corpus_texts = []
     cdir = REPO.parent  # placeholder to keep flake quiet
     from common import CORPUS
-    for p in sorted((CORPUS / "C01").glob("*.json")):
+    for p in sorted((CORPUS / "C01").glob("lex_*.json")):
         try:
             d = json.loads(p.read_text())
         except Exception:  # noqa
